@@ -128,11 +128,32 @@ func (c *Ctx) c07Effect() error {
 	return nil
 }
 
+// c07Fallthrough: the statement fallthrough is not supported. It must be refused when the program is compiled, or do what
+// Go does - not compile to a read of a variable that leaves a value on the operand stack and displaces the function's
+// result (fix: "fallthrough is a compile error")
+func (c *Ctx) c07Fallthrough() {
+	for _, q := range []struct{ src, want string }{
+		{"func f(x int) int {\n\tswitch x {\n\tcase 1:\n\t\tfallthrough\n\tcase 2:\n\t\treturn 2\n\t}\n\treturn 7\n}\nprintln(f(1), f(2), f(3))\n", "2 2 7\n"},
+		{"func g(x int) string {\n\ts := \"\"\n\tswitch {\n\tcase x > 0:\n\t\ts += \"a\"\n\t\tfallthrough\n\tcase x > 5:\n\t\ts += \"b\"\n\tdefault:\n\t\ts += \"c\"\n\t}\n\treturn s\n}\nprintln(g(1), g(9), g(-1))\n", "ab ab c\n"},
+		{"x := 1\nswitch x {\ncase 1:\n\tprintln(\"one\")\n\tfallthrough\ncase 2:\n\tprintln(\"two\")\n}\n", "one\ntwo\n"},
+	} {
+		out, err := runScript(q.src)
+		c.Rep.Oracle["fallthrough"]++
+		if err != nil && strings.Contains(err.Error(), "error in compile") {
+			continue // refused
+		}
+		if err != nil || out != q.want {
+			c.Rep.Violate(Violation{Kind: "oracle", Cut: "fallthrough", Input: q.src, Impl: fmt.Sprint(out, " err=", err), Oracle: "a compile error, or Go's output " + q.want})
+		}
+	}
+}
+
 func runC07(c *Ctx) error {
 	// handwritten programs (shapes that once slipped through), run by the Go toolchain
 	if err := c.runCorpus("C07-programs"); err != nil {
 		return err
 	}
+	c.c07Fallthrough()
 	c.Rep.Rule = "every distinct string literal of /repo/*_test.go that compiles (lenient mode: REPL-style inputs may leave values), a regression corpus and generated programs (strict mode: Go statements only), each compiled by the real compiler with the optimizer on and off and verified by the Lean checker; effect: one instruction per opcode on the real VM; distinct = distinct (source, mode); non-trivial = the code contains a jump or a call"
 	repo := os.Getenv("VERIF_REPO")
 	if repo == "" {
